@@ -106,6 +106,9 @@ func (fn *Function) CallInternal(thread *Thread, args Tuple, kwargs []Tuple) (Va
 	code := f.Code
 loop:
 	for {
+		if verifEnabled {
+			verifYield(thread)
+		}
 		thread.Steps++
 		if thread.Steps >= thread.maxSteps {
 			if thread.OnMaxSteps != nil {
@@ -139,6 +142,9 @@ loop:
 		if vmdebug {
 			fmt.Fprintln(os.Stderr, stack[:sp]) // very verbose!
 			compile.PrintOp(f, fr.pc, op, arg)
+		}
+		if verifEnabled {
+			verifExec(thread, op)
 		}
 
 		switch op {
